@@ -12,6 +12,7 @@ import (
 	"encoding/json"
 	"fmt"
 	"hash/fnv"
+	"io"
 	"regexp"
 	"sort"
 	"strings"
@@ -319,4 +320,69 @@ func verifJShort(b []byte) string {
 		return string(b)
 	}
 	return fmt.Sprintf("%s…(%d bytes)…%s", b[:80], len(b), b[len(b)-60:])
+}
+
+// verifJCheckIndex validates the structural invariant JsonChunker documents for a stored JSON
+// document: every key of an address-map node is the location at which the span of its child
+// ends (json_chunker.go: "Each key is a jsonLocation corresponding to the end of the span
+// represented by the child node"). Lookups and mutations seek by these keys, so a document whose
+// keys do not describe its text answers later operations wrongly. It returns "" or a description
+// of the first inconsistent key. arrayEdgeOK accepts the one inconsistency every freshly
+// serialized document can have (a chunk ending right after '[' is keyed with the start of
+// element 0, which a reader only reaches in the next chunk).
+func verifJCheckIndex(ctx context.Context, ns NodeStore, root *Node, arrayEdgeOK bool) string {
+	if root.Level() == 0 {
+		return ""
+	}
+	sc := ScanJsonFromBeginning(nil)
+	first := true
+	var problem string
+	var walk func(nd *Node) []byte
+	walk = func(nd *Node) (lastKey []byte) {
+		for i := 0; i < nd.Count() && problem == ""; i++ {
+			child, err := fetchChild(ctx, ns, nd.getAddress(i))
+			if err != nil {
+				problem = err.Error()
+				return nil
+			}
+			key := nd.GetKey(i)
+			lastKey = key
+			if child.Level() > 0 {
+				ck := walk(child)
+				if problem == "" && !bytes.Equal(ck, key) {
+					problem = fmt.Sprintf("level-%d key %d is %s (state %d) but its subtree ends with key %s (state %d)", nd.Level(), i, MySqlJsonPathFromKey(key), key[0], MySqlJsonPathFromKey(ck), ck[0])
+				}
+				continue
+			}
+			text := child.GetValue(0)
+			if first {
+				sc = ScanJsonFromBeginning(text)
+				first = false
+			} else {
+				sc = ScanJsonFromMiddle(text, sc.currentPath)
+			}
+			for {
+				err := sc.AdvanceToNextLocation()
+				if err == io.EOF {
+					break
+				}
+				if err != nil {
+					problem = fmt.Sprintf("leaf under key %s does not scan: %v", MySqlJsonPathFromKey(key), err)
+					return nil
+				}
+			}
+			if !bytes.Equal(sc.currentPath.key, key) {
+				if arrayEdgeOK && len(key) >= 3 && jsonPathType(key[0]) == startOfValue && key[len(key)-2] == beginArrayKey && key[len(key)-1] == 0 &&
+					sc.currentPath.getScannerState() == arrayInitialElement && bytes.Equal(sc.currentPath.key[1:], key[1:len(key)-2]) {
+					// continue scanning the next leaf from the keyed location
+					sc.currentPath = jsonPathFromKey(key)
+					continue
+				}
+				problem = fmt.Sprintf("leaf %d of a level-1 node is keyed %s (state %d) but its text ends at %s (state %d)", i, MySqlJsonPathFromKey(key), key[0], MySqlJsonPathFromKey(sc.currentPath.key), sc.currentPath.key[0])
+			}
+		}
+		return lastKey
+	}
+	walk(root)
+	return problem
 }
